@@ -173,7 +173,10 @@ def add_obligations(res, tree: Tree, rule: str, only_mask_tables: bool = False) 
     moves, msite = const_table(tree, E + "routing.maze.constants.MOVES")
     sl = switch_lists(f.node)
     if not sl:
-        raise AnalysisError("Maze.step: no lax.switch branch list found")
+        # the switch was moved into a helper / rewritten in a form this (syntactic) pairing does not read: not decided here
+        # (the value-flow rules on the same code -- displacement added, border tests, stale reads -- still apply)
+        ob(f.loc(), "routing.maze.env.Maze.step", "switch branches of step agree with MOVES", None, "no lax.switch branch list in the recognised form inside Maze.step")
+        sl = [[]]
     maze_named = named_lambdas(f.node)
     for i, br in enumerate(sl[0]):
         if isinstance(br, ast.Name) and br.id in maze_named:
@@ -222,7 +225,9 @@ def add_obligations(res, tree: Tree, rule: str, only_mask_tables: bool = False) 
     lams = named_lambdas(f.node)
     sl = switch_lists(f.node)
     if not sl or not lams:
-        raise AnalysisError("connector.utils.move_position: switch list / named lambdas not found")
+        ob(f.loc(), "routing.connector.utils.move_position", "switch branches of move_position agree with the action constants", None,
+           "switch list / named branch functions not in the recognised form")
+        sl = [[]]
     cvals = {nm: const_table(tree, E + "routing.connector.constants." + nm)[0] for nm in ("NOOP", "UP", "RIGHT", "DOWN", "LEFT")}
     for i, br in enumerate(sl[0]):
         nm = br.id if isinstance(br, ast.Name) else None
@@ -277,7 +282,8 @@ def add_obligations(res, tree: Tree, rule: str, only_mask_tables: bool = False) 
         order = [[b.id for b in lst if isinstance(b, ast.Name)] for lst in switch_lists(fi.node)]
         order = [o for o in order if o and all(x in lams for x in o)]
         if not order:
-            raise AnalysisError(f"{q}: player move switch not found")
+            copies.append((q, fi, None))
+            continue
         sig = []
         for nm in order[0]:
             el = lambda_elts(lams[nm])
@@ -290,9 +296,22 @@ def add_obligations(res, tree: Tree, rule: str, only_mask_tables: bool = False) 
             sig.append((nm, tuple(norm)))
         copies.append((q, fi, sig))
     ref = copies[0][2]
+
+    def _deltas(sg):
+        """displacements only (branch function names are private spellings)"""
+        return [tuple(o for _, o in nrm) for _, nrm in sg] if sg is not None else None
     for q, fi, sig in copies[1:]:
-        ob(fi.loc(), q, "player move table equals the one in PacMan.player_step (order and displacements)", sig == ref,
-           "identical" if sig == ref else f"{sig} vs {ref}")
+        da, db = _deltas(sig), _deltas(ref)
+        if da is None or db is None:
+            verdict = None
+        elif da == db:
+            verdict = True
+        else:
+            # definite only when both are fully numeric tables of the same length
+            numeric = all(all(delta_int(o) is not None for o in row) for row in da + db)
+            verdict = False if (numeric and len(da) == len(db)) else None
+        ob(fi.loc(), q, "player move table equals the one in PacMan.player_step (order and displacements)", verdict,
+           "identical displacements" if verdict else (f"{da} vs {db}" if verdict is False else "not in a comparable form"))
     # ---- RobotWarehouse: Direction enum <-> forward displacement
     dirs = enum_members(tree, E + "routing.robot_warehouse.types.Direction")
     fi = tree.functions.get(E + "routing.robot_warehouse.utils_agent.get_new_position_after_forward")
